@@ -15,6 +15,7 @@ func init() { register("C18", "other", checkC18) }
 const (
 	pkgState   = "internal/state"
 	pkgXform   = "internal/exprtransform"
+	pkgEval    = "internal/exprtransform/internal/expreval"
 	pkgMemory  = "internal/state/memory"
 	fnSetWidth = pkgXform + ".SetWidth"
 )
